@@ -444,6 +444,9 @@ func specLkAfter(kind, lk int) int {
 //@   at call Split#1: assert arg0 == string(meta) && arg1 == "\n"
 //@   at call Cut#1: assert arg0 == line && arg1 == ": "
 //@   at call Load#1: after assert result == le64(data, int(off))
+// ... and every record visited is added: each turn of the chain walk decodes one
+// name and leaves it in the result (a record that still reads zero is a record).
+//@   at loop 3 end: assert in(ctrName, f.Count)
 //@   modifies nothing
 
 // ---------------------------------------------------------------------------
